@@ -426,7 +426,34 @@ def sag_misc(eng, res):
         res.ob("R-SAG-COMPAT", ft, "terminal-tests-dominate", "the edge is added only when the terminal tests succeeded and the target is not an end group", ae[0], ok, f"{sorted(rp)}")
 
 
+def sag_parallel(eng, res, rule="R-SAG-PARALLEL"):
+    """Two descriptor pairs may join the same two atoms (an atom carrying two descriptors): each is an edge of its own.
+    That needs a multigraph and insertions that never name a key (a named key overwrites the edge that has it)."""
+    res.doc(rule, "the atom graph is a multigraph and every edge insertion adds a new edge (no explicit key): parallel descriptor pairs are all kept")
+    ci = eng.prog.cls("StochasticAtomGraph")
+    st = [(f, s) for fs in ci.methods.values() for f in fs for s in own_nodes(f.node) if isinstance(s, ast.Assign) and src(s.targets[0]) == "self.graph" and not (isinstance(s.value, ast.Constant) and s.value.value is None)]
+    ok = bool(st) and all(isinstance(s.value, ast.Call) and src(s.value.func).split(".")[-1] == "MultiDiGraph" for _, s in st)
+    holder = st[0][0] if st else ci.method("__init__")
+    res.unit(holder)
+    res.ob(rule, holder, "multigraph", "the graph is a networkx MultiDiGraph wherever it is created", st[0][1] if st else holder.node, ok, f"{[src(s.value)[:40] for _, s in st]}")
+    n = 0
+    for fs in ci.methods.values():
+        for f in fs:
+            for c in calls(f, "add_edge"):
+                if src(c.func.value) != "self.graph":
+                    continue
+                n += 1
+                keyed = len(c.args) > 2 or any(k.arg == "key" or k.arg is None for k in c.keywords) or any(isinstance(a, ast.Starred) for a in c.args)
+                res.ob(rule, f, f"no-key@{n}", "the edge is inserted without a key (a new parallel edge, never an overwrite)", c, not keyed,
+                       "add_edge names a key / passes a third positional argument: a second edge between the same atoms with that key replaces the first")
+    res.floor(rule, n, 6)
+
+
 def check(eng, res):
+    from ..fresh import fresh_flags
+
+    res.doc("R-FRESH-FLAG", "A-FRESH: no condition flag tested inside a loop keeps its value from a previous iteration")
+    fresh_flags(eng, res, {'stochastic_atom_graph'})
     res.doc("R-SAG-NODES", "both element kinds dispatched; one node per atom of the token's fragment with that atom's element / charge / aromaticity")
     res.doc("R-SAG-OFFSETS", "offset bookkeeping in lockstep with the counter; endpoints use the offset of their own descriptor's token")
     res.doc("R-SAG-STATIC", "one static edge per bond with that bond's order")
@@ -438,5 +465,6 @@ def check(eng, res):
     n = sag_links(eng, res)
     res.floor("R-SAG-COMPAT", n, 5)
     sag_misc(eng, res)
-    res.assumptions += ["RDKit atom indices of the fragment are those of the token's atoms", "MultiDiGraph keeps parallel edges"]
+    sag_parallel(eng, res)
+    res.assumptions += ["RDKit atom indices of the fragment are those of the token's atoms", "networkx: MultiDiGraph.add_edge(u, v, **attrs) without a key always adds a new edge"]
     res.not_decided += ["equality with an independently built graph for every molecule", "completeness of edges beyond 'every pair is considered under the stated filters'"]
